@@ -20,7 +20,15 @@ import json,sys
 sid,prop,tier,rc,seed,viol=sys.argv[1:7]
 p="seeded/%s/meta.json"%sid
 m=json.load(open(p))
-m.setdefault("checks",{})[prop]={"tier":tier,"seed":seed,"exit":int(rc),"caught":rc=="1","first_violations":[l.strip() for l in viol.splitlines() if l.strip()]}
+new={"tier":tier,"seed":seed,"exit":int(rc),"caught":rc=="1","first_violations":[l.strip() for l in viol.splitlines() if l.strip()]}
+old=m.setdefault("checks",{}).get(prop)
+if old and old.get("caught") and not new["caught"]:
+    # keep the catching run, note the sample that missed
+    old.setdefault("not_caught_with",[]).append("%s seed %s"%(tier,seed))
+else:
+    if old and not old.get("caught") and new["caught"]:
+        new["not_caught_with"]=old.get("not_caught_with",[])+["%s seed %s"%(old.get("tier"),old.get("seed"))]
+    m["checks"][prop]=new
 json.dump(m,open(p,"w"),indent=1)
 EOF
   # replays written while the change was applied describe a changed tree: keep one next to the change, drop the rest
